@@ -8,13 +8,13 @@ CACHE = os.environ.get('VERIF_CACHE', '/verif/.cache')
 
 def _default_timeout():
     """a worker that does not come back is a finding (a loop in the code under test), not something to wait for:
-    quick-tier jobs take a minute or two, so they get 15 minutes; thorough-tier jobs 4 hours"""
+    quick-tier jobs take a minute or two, so they get 10 minutes; thorough-tier jobs 4 hours"""
     if os.environ.get('VERIF_JOB_TIMEOUT'):
         return int(os.environ['VERIF_JOB_TIMEOUT'])
     tier = os.environ.get('VERIF_TIER', 'quick')
     if '--tier' in sys.argv:
         tier = sys.argv[sys.argv.index('--tier') + 1]
-    return 900 if tier == 'quick' else 4 * 3600
+    return 600 if tier == 'quick' else 4 * 3600
 
 
 def run_jobs(module, jobs, flavour='plain', max_workers=16, timeout=None, pure=False):
